@@ -115,9 +115,10 @@ def _unsupported(draw):
     elif kind == 'too_wide':
         spec.update(datatype='I', widths_print=[draw(st.sampled_from([72, 128]))] + [16] * (D - 1))
     elif kind == 'byteord':
-        spec['byteord'] = draw(st.sampled_from(['3,4,1,2', '2,1,4,3', '1,2,3', '4,3,2,1,0', '']))
-        if spec['byteord'] == '':
-            spec['byteord'] = '3,4,1,2'
+        import itertools
+        mixed4 = [','.join(p_) for p_ in itertools.permutations('1234') if ','.join(p_) not in ('1,2,3,4', '4,3,2,1')]
+        spec['byteord'] = draw(st.one_of(st.sampled_from(['3,4,1,2', '2,1,4,3', '1,2,3', '4,3,2,1,0', '1,3,2', '2,4', '1,1', '0,1']),
+                                         st.sampled_from(mixed4)))      # every mixed order of four bytes
     else:
         if spec['datatype'] == 'F':
             spec['widths_print'] = [64] * D
